@@ -42,6 +42,7 @@ Theorem C02_justify_text :
   (forall f z, kind f = KInt ->
      render f (VInt z) = Some (pad (size f - length (str_of_Z z)) ++ str_of_Z z) /\ ~ In SP (str_of_Z z)) /\
   (forall f dd sci upper sep x, kind f = KFloat dd sci upper sep -> missing (VFloat x) = false ->
+     sci && sci_raises x dd = false ->   (* E notation: round() did not overflow (then the write raises: C02_float_raises) *)
      let body := float_text true (size f) dd sci upper sep x in
      render f (VFloat x) = Some (pad (size f - length body) ++ body)) /\
   (forall f s, kind f = KLit -> render f (VStr s) = Some (s ++ pad (size f - length s))) /\
